@@ -317,8 +317,8 @@ template<class T> static std::string run_D(const Case& c) {
               " mem=" + memdump();
         if (t) {
             out += " walk=" + walk_fields(sh.fs, (char*)t);
-            out += " ops=" + (c.ops == "~" ? std::string("-") : ops_of(t, sh, c.ops, 0));
-            out += " mem2=" + (c.ops == "~" ? std::string("-") : memdump());
+            out += " ops=" + (c.ops[0] == '~' ? std::string("-") : ops_of(t, sh, c.ops, 0));
+            out += " mem2=" + (c.ops[0] == '~' ? std::string("-") : memdump());
         } else out += " walk=- ops=- mem2=-";
     }
     return out;
